@@ -618,13 +618,21 @@ def build(control_events=False):
               "n_hook('mode_stop') == 1 and all_event_handlers_removed() and len(self.event_handlers) == 0 and "
               "all_devices_removed() and len(self.mode_devices) == 0 and stop_callbacks_ran() and "
               "len(self.stop_callbacks) == 0 and not self.cleanup"),
+             ("M13: ... nor a switch handler: stop() removes them when the stop begins, but mode_start() of a mode that is "
+              "stopped from a handler of its own started event registers its switch handlers AFTER that (attract: the "
+              "start button would stay live on a stopped mode) - whatever is registered by then is removed here",
+              "all_switch_handlers_removed() and len(self.switch_handlers) == 0"),
              ("M12: ... and no delay of the mode is left pending: stop() clears them when the stop begins, but the mode's "
               "handlers and control events stay registered until this clean-up - whatever they added in between (e.g. a "
               "delayed control event on the very event that stops the mode) is cleared here, so nothing fires on the "
               "stopped mode or in its next run", "mode_delays_cleared()"),
          ],
          modifies=["self.mode_stop_kwargs", "self.event_handlers", "self.mode_devices", "self.stop_callbacks",
-                   "self.cleanup", "self.delay.pending.**"], raises={}, bounded=B2)
+                   "self.cleanup", "self.delay.pending.**", "self.switch_handlers"], raises={}, bounded=B2)
+
+    C.finite_checks.append(common.native_demo_check(
+        "c07_stop_from_started_handler.py",
+        "a mode stopped from a handler of its own started event leaves no switch or event handler behind"))
 
     def mode_delays_cleared(I):
         this = I.frames[0].env["self"].ref
